@@ -457,6 +457,101 @@ func (fa *funcAn) argFieldBool(a ssa.Value, j int, st lstate) int8 {
 	return 0
 }
 
+// recordFlagField: t is a struct with exactly one boolean field: its index (-1 otherwise).
+func recordFlagField(t types.Type) int {
+	st, ok := t.Underlying().(*types.Struct)
+	if !ok || st.NumFields() > 6 {
+		return -1
+	}
+	j := -1
+	for i := 0; i < st.NumFields(); i++ {
+		if bt, ok := st.Field(i).Type().Underlying().(*types.Basic); ok && bt.Kind() == types.Bool {
+			if j >= 0 {
+				return -1
+			}
+			j = i
+		}
+	}
+	return j
+}
+
+// recordFlagValue: the constant the boolean field j of a returned record holds (0 unknown, 1 false, 2 true): a literal
+// built for the return (field stored once with a constant, or never: false), or the zero value.
+func recordFlagValue(v ssa.Value, j int) int8 {
+	if k, ok := v.(*ssa.Const); ok && k.Value == nil {
+		return 1
+	}
+	ld, ok := v.(*ssa.UnOp)
+	if !ok || ld.Op != token.MUL {
+		return 0
+	}
+	al, ok := ld.X.(*ssa.Alloc)
+	if !ok || al.Referrers() == nil {
+		return 0
+	}
+	val := int8(1) // a literal that does not mention the field leaves it false
+	n := 0
+	for _, ref := range *al.Referrers() {
+		switch x := ref.(type) {
+		case *ssa.Store:
+			if x.Addr == ssa.Value(al) {
+				return 0
+			}
+		case *ssa.FieldAddr:
+			if x.Field != j || x.Referrers() == nil {
+				continue
+			}
+			for _, rr := range *x.Referrers() {
+				if s2, ok := rr.(*ssa.Store); ok && s2.Addr == ssa.Value(x) {
+					n++
+					k, isC := s2.Val.(*ssa.Const)
+					if !isC || k.Value == nil {
+						return 0
+					}
+					if k.Value.String() == "true" {
+						val = 2
+					} else {
+						val = 1
+					}
+				}
+			}
+		}
+	}
+	if n > 1 {
+		return 0
+	}
+	return val
+}
+
+// recordFlagRead: v reads the flag of the record result k of a call: Field(extract, j), or the load of that field from
+// the local variable the result was assigned to as a whole.
+func recordFlagRead(v ssa.Value) (*ssa.Call, int, bool) {
+	var rec ssa.Value
+	field := -1
+	switch x := v.(type) {
+	case *ssa.Field:
+		rec, field = x.X, x.Field
+	case *ssa.UnOp:
+		if fa, ok := x.X.(*ssa.FieldAddr); ok && x.Op == token.MUL {
+			if whole := an.SingleStore(fa.X); whole != nil {
+				rec, field = whole, fa.Field
+			}
+		}
+	}
+	if rec == nil || recordFlagField(rec.Type()) != field {
+		return nil, 0, false
+	}
+	switch y := rec.(type) {
+	case *ssa.Extract:
+		if call, ok := y.Tuple.(*ssa.Call); ok {
+			return call, y.Index, true
+		}
+	case *ssa.Call:
+		return y, 0, true
+	}
+	return nil, 0, false
+}
+
 // isTokenChanType: chan struct{} or a named type of it.
 func isTokenChanType(t types.Type) bool {
 	ch, ok := t.Underlying().(*types.Chan)
@@ -587,6 +682,22 @@ func (fa *funcAn) edge(st lstate, from *ssa.BasicBlock, succ int) (lstate, bool)
 							st.pend = -1
 						}
 					}
+				}
+			}
+		}
+		// pending flag of a record result (ref, err := lookup(…); if ref.tracked)
+		if st.pend >= 0 {
+			base, neg := an.CondBase(ifi.Cond)
+			if call, k, ok := recordFlagRead(base); ok && fa.callID[call] == st.pend && k < 8 {
+				isTrue := (succ == 0) != neg
+				if f := (st.pendB >> (2 * uint(k))) & 3; f != 0 {
+					if (f == 2) != isTrue {
+						return st, false
+					}
+					st.pendB &^= 3 << (2 * uint(k))
+				}
+				if st.pendNil == 0 && st.pendB == 0 {
+					st.pend = -1
 				}
 			}
 		}
@@ -823,6 +934,27 @@ func (fa *funcAn) instr(st lstate, in ssa.Instruction) []lstate {
 			}
 			if bt, isB := x.Results[k].Type().Underlying().(*types.Basic); isB && bt.Kind() == types.Bool {
 				if v := fa.boolResult(x.Results[k], x); v != 0 {
+					ex.bools |= uint16(v) << (2 * uint(k))
+				}
+			}
+			// a small record with one boolean field (repoRef{repo, tracked}): the flag plays the part of a boolean result
+			if j := recordFlagField(x.Results[k].Type()); j >= 0 {
+				rv := x.Results[k]
+				// a result spilled into a cell because of a defer: what the returning block stored there last
+				if u, ok := rv.(*ssa.UnOp); ok && u.Op == token.MUL {
+					if cell, ok := u.X.(*ssa.Alloc); ok {
+						var last ssa.Value
+						for _, in := range x.Block().Instrs {
+							if s2, ok := in.(*ssa.Store); ok && s2.Addr == ssa.Value(cell) {
+								last = s2.Val
+							}
+						}
+						if last != nil {
+							rv = last
+						}
+					}
+				}
+				if v := recordFlagValue(rv, j); v != 0 {
 					ex.bools |= uint16(v) << (2 * uint(k))
 				}
 			}
